@@ -45,6 +45,7 @@ type world struct {
 	conns      atomic.Int64
 	dialFails  atomic.Int64 // number of upcoming dials that must fail
 	firstOps   atomic.Int64
+	drops      atomic.Int64 // server-drops-repeatedly: number of requests still to be dropped after reading
 	clientConn []*memnet.Conn
 }
 
@@ -70,6 +71,11 @@ func newWorld(c *core.Ctx, kind string, at int) *world {
 		ord := w.seen
 		w.seen++
 		w.mu.Unlock()
+		if w.kind == "server-drops-repeatedly" && id != "discover" && w.drops.Add(-1) >= 0 {
+			w.fired.Store(true)
+			conn.Close() // the request was read completely; the connection goes away without an answer
+			return nil
+		}
 		if w.kind == "server-closes-after-read" && ord == w.at && !w.fired.Swap(true) {
 			conn.Close()
 			return nil
@@ -261,6 +267,42 @@ func matrix(c *core.Ctx, r *core.Rand, i int) {
 	label := fmt.Sprintf("m%d-%s@%d", i, kind, at)
 	c.Distinct(core.Hash64("matrix", kind, fmt.Sprint(at)))
 	scenario(c, kind, at, label)
+}
+
+// repeatedDrops: a reachable server drops the connection right after reading the request, K times in a
+// row. Whatever the client does, one call transmits its request at most four times.
+func repeatedDrops(c *core.Ctx, r *core.Rand, i int) {
+	K := 1 + i%8
+	label := fmt.Sprintf("rd%d-drops%d", i, K)
+	base := len(census.Goroutines())
+	w := newWorld(c, "server-drops-repeatedly", 0)
+	cl, err := kmipclient.Dial("mem", kmipclient.WithDialerUnsafe(w.dialer), kmipclient.EnforceVersion(kmip.V1_4))
+	if err != nil {
+		panic(err)
+	}
+	if i%2 == 1 {
+		w.call(cl, label+"-warm") // dropped as well when K > 0: use a fresh counter afterwards
+	}
+	w.drops.Store(int64(K))
+	o := w.call(cl, label+"-x")
+	w.drops.Store(0)
+	w.mu.Lock()
+	n := w.tx[label+"-x"]
+	w.mu.Unlock()
+	c.Count("repeated_drop_scenarios", 1)
+	c.Count(fmt.Sprintf("repeated_drops.k%d", K), 1)
+	c.Distinct(core.Hash64("repeated-drops", fmt.Sprint(K, i%2)))
+	if n > 4 {
+		c.Violation("C11:too-many-transmissions:server-drops-repeatedly", fmt.Sprintf("a single call transmitted its request %d times (the server dropped the connection after reading it %d times in a row); the limit is 4", n, K), nil)
+	}
+	if o.err == nil && o.got != o.id {
+		c.Violation("C11:wrong-response:server-drops-repeatedly", fmt.Sprintf("call %s returned %q", o.id, o.got), nil)
+	}
+	// afterwards the server behaves: never two consecutive failures
+	w.judge(label, []outcome{w.call(cl, label+"-after1"), w.call(cl, label+"-after2")})
+	core.Guard(func() { cl.Close() })
+	w.srv.Close()
+	leak(c, base, "server-drops-repeatedly", label)
 }
 
 // reconnect failures: the dialer itself fails a few times after the fault, then recovers
@@ -463,15 +505,16 @@ func Spec() *core.Spec {
 		Race:  true,
 		Rule: "scenario {Dial with version negotiation, call 1, call 2, call 3, Close, call after Close, Close again} against a scripted in-memory server; for EVERY I/O operation index 0..25 of the first connection (the scenario uses ~20) and every kind " +
 			"{read EOF, read on closed, read ECONNRESET, write EPIPE, write ECONNRESET, short write, server closes right after replying to request k, server closes right after reading request k} the scenario is rerun with that fault (later connections are fault-free); " +
-			"plus dialer failures during reconnect, 4/8/16 concurrent callers with a fault, and directed schedules through the verif hooks (connection torn down between loading the tx channel and using it; caller gone while the write loop reports an error; Close during a call). " +
+			"plus a server that drops the connection after reading the request 1..8 times in a row (transmission budget), dialer failures during reconnect, 4/8/16 concurrent callers with a fault, and directed schedules through the verif hooks (connection torn down between loading the tx channel and using it; caller gone while the write loop reports an error; Close during a call). " +
 			"Monitors: panic/crash, own-id response or error, never two consecutive failed calls, <= 4 transmissions per request, calls fail after Close, goroutine census after Close. distinct = distinct (scenario kind, fault kind, operation index)",
 		Assumptions: []string{"recovery rule used: while the server is reachable and new connections are fault-free, two consecutive calls never both fail (a call pending at, or first after, the fault may fail)",
 			"goroutines gone = none with a library frame within 10 s of closing the client and the server (bounded progress)"},
 		Required: []string{"calls", "faults_fired.read-eof", "faults_fired.read-reset", "faults_fired.write-epipe", "faults_fired.short-write", "faults_fired.server-closes-after-reply", "faults_fired.server-closes-after-read",
-			"census_checks", "calls_after_close", "dialer_failure_scenarios", "concurrent_scenarios", "directed.terminate-before-send-select", "directed.close-in-flight"},
+			"census_checks", "calls_after_close", "repeated_drops.k4", "repeated_drops.k5", "dialer_failure_scenarios", "concurrent_scenarios", "directed.terminate-before-send-select", "directed.close-in-flight"},
 		Shards: func(string) int { return 8 },
 		Families: []core.Family{
 			{Name: "matrix", Exhaustive: true, N: func(string) int { return maxOps * len(kinds) }, Run: matrix, Timeout: 40 * time.Second},
+			{Name: "repeated-drops", Exhaustive: true, N: func(string) int { return 16 }, Run: repeatedDrops, Timeout: 40 * time.Second},
 			{Name: "dialer-failures", N: func(tier string) int {
 				if tier == core.Thorough {
 					return 600
